@@ -822,6 +822,72 @@ example :
            (["function".toList, "foo".toList], .leaf ["    return 1;".toList, "".toList]),
            (["C_definitions".toList], .leaf ["#define A 1".toList])] := by decide
 
+/-! ### stack discipline of `wrap_namespace` -/
+
+def NS.scope : NS → Str | .mk s _ => s
+
+theorem push_names (s s1 : Stack) (n : Str) (h : push s n = .ok s1) : s1.names = s.names ++ [n] := by
+  unfold push at h; split at h
+  · simp only [Res.ok.injEq] at h; subst h; rfl
+  · simp at h
+theorem pop_names (s s1 : Stack) (h : pop s = .ok s1) : s1.names = s.names.dropLast := by
+  unfold pop at h; split at h
+  · simp at h
+  · simp only [Res.ok.injEq] at h; subst h; rfl
+theorem updateTop_names (s s1 : Stack) (n : Str) (h : updateTop s n = .ok s1) :
+    s1.names = s.names.dropLast ++ [n] := by
+  unfold updateTop at h; split at h
+  · simp at h
+  · simp only [Res.ok.injEq] at h; subst h; rfl
+
+mutual
+theorem wrapNs_names : ∀ (ns : NS) (s s' : Stack), wrapNs s ns = .ok s' →
+    s'.names = s.names.dropLast ++ [ns.scope]
+  | .mk scope kids, s, s', h => by
+    simp only [wrapNs] at h
+    split at h
+    · simp at h
+    · rename_i s1 h1
+      split at h
+      · simp at h
+      · rename_i s2 h2
+        split at h
+        · simp at h
+        · rename_i s3 h3
+          have k := wrapKids_names kids s2 s3 h3
+          have e2 : s2.names = s.names := by
+            rw [pop_names _ _ h2, push_names _ _ _ h1]; simp
+          rw [updateTop_names _ _ _ h, k, e2]; rfl
+theorem wrapKids_names : ∀ (ks : List NS) (s s' : Stack), wrapKids s ks = .ok s' →
+    s'.names.dropLast = s.names.dropLast
+  | [], s, s', h => by simp only [wrapKids, Res.ok.injEq] at h; subst h; rfl
+  | .mk scope kk :: ks, s, s', h => by
+    simp only [wrapKids] at h
+    split at h
+    · simp at h
+    · rename_i s1 h1
+      split at h
+      · simp at h
+      · rename_i s2 h2
+        have a := wrapNs_names (.mk scope kk) s1 s2 h2
+        have b := wrapKids_names ks s2 s' h
+        rw [b, a, updateTop_names _ _ _ h1]; simp
+end
+
+/-- **stack discipline.**  Wrapping a namespace with any tree of nested namespaces leaves the splicer
+    name stack as it found it (entered with its own scope name on top): the module-level blocks written
+    afterwards (`file_top`, `module_use`, `module_top`) are created under the namespace's own name,
+    not under the last nested namespace's. -/
+theorem wrap_namespace_discipline (ns : NS) (s s' : Stack) (pre : Path)
+    (h0 : s.names = pre ++ [ns.scope]) (h : wrapNs s ns = .ok s') : s'.names = s.names := by
+  rw [wrapNs_names ns s s' h, h0]; simp
+
+example : (match wrapNs ⟨[(["namespace".toList], .dict), (["namespace".toList, "outer".toList], .dict)],
+        ["namespace".toList, "outer".toList]⟩
+      (.mk "outer".toList [.mk "outer::inner".toList [], .mk "outer::second".toList []]) with
+    | .ok s => some (splicerPath s.names)
+    | .crash _ => none) = some "namespace.outer.".toList := by decide
+
 /-! ### reader defects, as modelled (replayed on the real code by the check) -/
 
 private def f (ls : List String) : List Str := ls.map (fun s => (s ++ "\n").toList)
